@@ -1,6 +1,6 @@
 (* Properties_C04_tagged_src.v — C04 for the tagged family, stated about the
    encoder regenerated from the current src/varintTagged.c (coq/gen/Src_tagged.v). *)
-Require Import VV.Base VV.CSem VV.TaggedSrcProps.
+Require Import VV.Base VV.CSem VV.TaggedSrcPropsPut.
 Require Import VVgen.Src_tagged.
 Local Open Scope Z_scope.
 
